@@ -476,6 +476,17 @@ func oracleSub(c Case, t *sqlh.TableDesc, limits []sqlh.Filter, s Sub, o obs, co
 			}
 		}
 	case "insertrows", "upsertrows":
+		if s.Chunk <= 0 && len(s.Rows) > 0 { // cannot make progress: an error, nothing written, nothing committed
+			if !o.errored {
+				run.Fail(idx, "c12-bulk-write-without-progress-not-refused", o.detail, c)
+			}
+			for _, e := range o.log {
+				if e.Kind == "commit" || e.Kind == "exec" {
+					run.Fail(idx, "c12-bulk-write-without-progress-touched-the-database", e.Kind+" "+e.SQL, c)
+				}
+			}
+			return
+		}
 		bad := false
 		for _, l := range limits {
 			for _, r := range s.Rows {
@@ -988,6 +999,19 @@ func main() {
 		ev, ok := sqlh.CoqEvents(res.log)
 		if !ok {
 			run.Hist("skipped-model:value-outside-model")
+			continue
+		}
+		// InsertRows / UpsertRows with a chunk size that cannot make progress through a non-empty list of rows:
+		// the call fails, and whether it notices before or after BEGIN is not the property's business (the oracle
+		// asks for an error, no row-level statement and no COMMIT); such calls are not compared with the model
+		zeroChunk := false
+		for _, s := range append([]Sub{c.Sub}, c.Ops...) {
+			if (s.Op == "insertrows" || s.Op == "upsertrows") && s.Chunk <= 0 && len(s.Rows) > 0 {
+				zeroChunk = true
+			}
+		}
+		if zeroChunk {
+			run.Hist("skipped-model:bulk-write-with-chunk-size-zero (fails either way)")
 			continue
 		}
 		outsideSeq := false
